@@ -418,7 +418,18 @@ def evaluate(P, cases, exes, want_model=True, budget_s=600, stop_after=40, chunk
         done = [i for i, o in enumerate(impl) if o is not None]
         for off in range(0, len(done), 5000):
             part = done[off:off + 5000]
-            outs, mc = run_lines(STATE['driver'], [cases[i].line for i in part], timeout=max(60, 0.05 * len(part)))
+            if hasattr(P, 'model_line'):
+                # the model runs on the implementation's own history (refinement check): its input is derived from
+                # the case and the implementation's trace
+                mlines = []
+                for i in part:
+                    try:
+                        mlines.append(P.model_line(cases[i], impl[i]))
+                    except Exception as e:
+                        mlines.append('unabstractable ' + type(e).__name__)
+            else:
+                mlines = [cases[i].line for i in part]
+            outs, mc = run_lines(STATE['driver'], mlines, timeout=max(60, 0.05 * len(part)))
             for i, o in zip(part, outs):
                 model[i] = o
             model_crashes.extend(mc)
@@ -538,7 +549,7 @@ def _run_cases(P, prop_id, tier, seed, rng, t0, broken, notes, axioms, driver_ok
             clause, detail = res
             failures.append({'case': c, 'impl': io, 'model': mo, 'clause': clause, 'detail': detail,
                              'sig': P.signature(c, io, clause) if hasattr(P, 'signature') else clause})
-        if mo is not None and io != mo:
+        if mo is not None and not (P.agree(c, io, mo) if hasattr(P, 'agree') else io == mo):
             disagreements.append({'case': c, 'impl': io, 'model': mo})
         try:
             if P.nontrivial(c, io):
@@ -616,8 +627,12 @@ def _run_cases(P, prop_id, tier, seed, rng, t0, broken, notes, axioms, driver_ok
         o_small, _ = run_lines(exes[hname], [small], env_extra=getattr(P, 'HARNESS_ENV', None))
         m_small = None
         if driver_ok:
-            ms, _ = run_lines(STATE['driver'], [small])
-            m_small = ms[0] if ms else None
+            try:
+                ml = P.model_line(Case(small, hname), o_small[0]) if hasattr(P, 'model_line') else small
+                ms, _ = run_lines(STATE['driver'], [ml])
+                m_small = ms[0] if ms else None
+            except Exception:
+                m_small = None
         h = hashlib.sha1(small.encode()).hexdigest()[:12]
         rpath = os.path.join(rdir, f'{h}.json')
         write_json(rpath, {
@@ -669,7 +684,7 @@ def _run_cases(P, prop_id, tier, seed, rng, t0, broken, notes, axioms, driver_ok
             'theorems': {t: axioms.get(t) for t in P.THEOREMS},
             'evaluations': sum(1 for o in impl if o is not None) + searched, 'distinct_nontrivial': len(nontrivial),
             'rule': getattr(P, 'RULE', ''), 'samples': samples,
-            'traces_validated_against_impl': sum(1 for io, mo in zip(impl, model) if io is not None and io == mo),
+            'traces_validated_against_impl': sum(1 for c, io, mo in zip(cases, impl, model) if io is not None and mo is not None and (P.agree(c, io, mo) if hasattr(P, 'agree') else io == mo)),
             'disagreements': len(disagreements), 'oracle_failures': len(failures),
             'known_findings_reproduced': sorted(known_hit), 'sanitizer_or_crash_cases': len(crashes),
             'case_tag_distribution': dict(sorted(tagcount.items(), key=lambda kv: -kv[1])[:40]),
